@@ -98,6 +98,24 @@ RAW_FILES.append(('pep695odd.py', b'type __all__ = int\ntype __docformat__ = str
                   b'def f():\n    class L:\n        type T = int\n    type f = int\nlambda: 0\n'))
 RAW_FILES.append(('newsyntax.py', b'def f(cmd, /, x, *, y):\n    match cmd:\n        case [a, *rest] if a:\n            def inner(): pass\n        case {"k": v, **kw}:\n            class K: pass\n        case _:\n            z = 1\n'
                   b'try:\n    pass\nexcept* ValueError as eg:\n    H = 1\nif (n := 10) > 5:\n    W = n\nwith (open("a") as fa, open("b") as fb):\n    V = 2\n'))
+RAW_FILES.append(('overload_deco.py', 'from typing import overload\ndef deco(*a):\n    return lambda f: f\n@overload\n@deco("Obsol\u00e8te\u00a0: x")\ndef f(a: int) -> int: ...\n'
+                  '@overload\n@deco("y\u00a0z")\ndef f(a: str) -> str: ...\ndef f(a):\n    return a\nclass C:\n    @overload\n    @deco("nb\u00a0sp")\n    def m(self, a: int) -> int: ...\n'
+                  '    @overload\n    def m(self, a: str) -> str: ...\n    @deco("q\u00a0r")\n    def m(self, a):\n        return a\n    @property\n    @deco("p\u00a0q")\n    def p(self): pass\n'.encode('utf-8')))
+RAW_FILES.append(('implements_nonclass.py', b'from zope.interface import Interface, implementer, classImplements\nclass IFoo(Interface):\n    def m():\n        """im"""\ndef some_function(): pass\nCONST = 1\n'
+                  b'@implementer(some_function, IFoo, CONST, IFoo.m)\nclass A:\n    def m(self): pass\nclass B(A):\n    def m(self): pass\nclassImplements(B, some_function)\n'))
+RAW_FILES.append(('augassign_alias.py', b'from typing import TypeAlias\nX = 1\nX += "(("\nX: TypeAlias\nY = "a"\nY += "b"\nY: TypeAlias = "int"\nclass K:\n    Z = 1\n    Z *= "]]"\n    Z: TypeAlias\n'))
+
+# whole projects (files, roots, options) that once aborted the run
+FIXED_PROJECTS: List[Tuple[Dict[str, str], List[str], List[str]]] = [
+    # a root module listed in __all__ of a package that imports it through one of its modules
+    ({'pkg/__init__.py': 'from .origin import other\n__all__ = ["other"]\n', 'pkg/origin.py': 'import other\n', 'other.py': 'X = 1\n'}, ['pkg', 'other.py'], []),
+    ({'pkg/__init__.py': 'import other\n__all__ = ["other"]\n', 'other.py': 'X = 1\n'}, ['other.py', 'pkg'], []),
+    ({'pkg/__init__.py': 'import otherpkg\nfrom otherpkg import sub\n__all__ = ["otherpkg", "sub"]\n', 'otherpkg/__init__.py': '', 'otherpkg/sub.py': 'X = 1\n'}, ['pkg', 'otherpkg'], []),
+    # fields of a package / class docstring that name a submodule, a class, a function
+    ({'pkg/__init__.py': '"""\n@var sub: a submodule\n@type sub: module\n@var K: a class\n@var f: a function\n"""\nother = 1\nclass K:\n    """\n    @ivar m: a method\n    @cvar N: a nested class\n    """\n    def m(self): pass\n    class N: pass\ndef f(): pass\n',
+      'pkg/sub.py': 'x = 1\n'}, ['pkg'], ['--mod-member-order=source', '--cls-member-order=source']),
+    ({'pkg/__init__.py': '"""\n:var sub: a submodule\n"""\nother = 1\n', 'pkg/sub.py': 'x = 1\n'}, ['pkg'], ['--docformat=restructuredtext', '--mod-member-order=source']),
+]
 
 PRIVACY_PATTERNS = ['**', '**.*', '*', 'pkg.**', '**.ghost', '**.C', '**.Base', '**.f', '**.m', '**.x', '**._p', '**.D.*', 'pkg.dep', 'pkg.mod', 'pkg.sub', 'pkg.sub.**', 'pkg.mod.*', 'pkg.dep.Base', 'pkg.dep.Base.m',
                     'dep', 'dep.Base', 'mod.C', 'pkg', '**.I', '**.__init__', '**.E', '*.mod.C.f', '**.UPPER', 'pkg.sib', '**.g', '**.[CD]', 'pkg.*.?']
@@ -441,6 +459,8 @@ def work(item: Dict[str, Any]) -> Acc:
         for name, data in RAW_FILES:
             run_case({'files': {'pkg/__init__.py': '"""pkg"""\n', 'pkg/good.py': 'class Good:\n    """ok"""\n', 'pkg/' + name: {'hex': data.hex()}},
                       'roots': ['pkg'], 'args': ['--docformat=epytext'], 'meta': False})
+        for files_, roots_, args_ in FIXED_PROJECTS:
+            run_case({'files': dict(files_), 'roots': list(roots_), 'args': (['--docformat=epytext'] if not any(a.startswith('--docformat') for a in args_) else []) + list(args_), 'meta': False})
         for i, srcb in enumerate(pysource.big_sources()):
             run_case({'files': {'pkg/__init__.py': '', 'pkg/good.py': 'class Good:\n    """ok"""\n', 'pkg/big.py': srcb},
                       'roots': ['pkg'], 'args': ['--docformat=' + DOCFORMATS[i % 5]], 'meta': False})
